@@ -463,3 +463,31 @@ package connect
 //@   ensures let S := old(rest(r.reader)) in |S| >= 5 && r.readMaxBytes > 0 && declared(S) > r.readMaxBytes ==> res != nil   // label: oversize-on-the-wire-rejected   // tags: C09
 //@   ensures let S := old(rest(r.reader)) in completeFrame(r, S) && isCompressed(S) && r.compressionPool == nil ==> res != nil && !Is(res, io.EOF)   // label: compressed-without-negotiated-encoding-rejected   // tags: C07, C08
 //@   ensures res != nil ==> asErr(res) == res                                                                 // label: errors-are-coded
+
+// ---------------------------------------------------------------------------
+// protocol.go: compression negotiation
+// ---------------------------------------------------------------------------
+
+// supports(p, name): the pool set p has an algorithm called name.
+//@ ghostfield supports bool index seq
+//@ trusted func readOnlyCompressionPools.Contains(p, name) res
+//@   ensures res == supports(p, name)
+//@ trusted func readOnlyCompressionPools.CommaSeparatedNames(p) res
+//@ trusted func readOnlyCompressionPools.Get(p, name) res
+//@   ensures res != nil ==> supports(p, name)
+
+//@ macro offered(accept seq) strlist = fieldsBy(isCommaOrSpace, accept)
+
+//@ func negotiateCompression(availableCompressors, sent, accept) (requestCompression, responseCompression, clientVisibleErr)
+//@   tags C08, C07
+//@   requires availableCompressors != nil
+//@   ensures sent != "" && sent != "identity" && !supports(availableCompressors, sent) ==> clientVisibleErr != nil && clientVisibleErr.code == 12 && asErr(clientVisibleErr) == clientVisibleErr   // label: unknown-request-compression-is-unimplemented
+//@   ensures sent == "" || sent == "identity" || supports(availableCompressors, sent) ==> clientVisibleErr == nil        // label: known-request-compression-accepted
+//@   ensures clientVisibleErr == nil ==> (if sent == "" || sent == "identity" then requestCompression == "identity" else requestCompression == sent)   // label: request-compression-is-what-the-client-used
+//@   ensures clientVisibleErr == nil && responseCompression != "identity" ==> supports(availableCompressors, responseCompression) && (responseCompression == sent || (exists k int :: 0 <= k && k < |offered(accept)| && offered(accept)[k] == responseCompression))   // label: response-compression-supported-and-used-or-advertised
+//@   ensures clientVisibleErr == nil && requestCompression == "identity" ==> (forall k int :: {offered(accept)[k]} 0 <= k && k < |offered(accept)| && supports(availableCompressors, offered(accept)[k]) && (forall j int :: {offered(accept)[j]} 0 <= j && j < k ==> !supports(availableCompressors, offered(accept)[j])) ==> responseCompression == offered(accept)[k])   // label: first-advertised-supported-algorithm-wins
+//@   ensures clientVisibleErr == nil && requestCompression == "identity" && (forall j int :: {offered(accept)[j]} 0 <= j && j < |offered(accept)| ==> !supports(availableCompressors, offered(accept)[j])) ==> responseCompression == "identity"   // label: nothing-in-common-means-identity
+//@   loop 1:
+//@     invariant 0 - 1 <= rangeindex && rangeindex < |offered(accept)| && responseCompression == "identity" && requestCompression == "identity"
+//@     invariant forall j int :: {offered(accept)[j]} 0 <= j && j <= rangeindex ==> !supports(availableCompressors, offered(accept)[j])
+//@     decreases |offered(accept)| - rangeindex
